@@ -323,15 +323,19 @@ def classify(drv, stmt, op, a, x0, x1, mm0, mm1, cache, listed):
         det.update({"ms0": ms0, "ms1": ms1, "model_inv": same_modulo_star(drv, stmt, a["stmt"], ms0, ms1, cache)})
     if impl_inv:
         return "invariant", det
-    if cls == "d7" and "D7" in listed and model_applies and not det["model_inv"] and s0 == det["ms0"] and s1 == det["ms1"]:
-        return "known:D7", det
+    if cls == "d7" and "D7" in listed and model_applies and s0 == det["ms0"]:
+        # the finding is identified by its class AND implementation = model on both texts
+        if not det["model_inv"] and s1 == det["ms1"]:
+            return "known:D7", det
+        return "fail", det
     if cls == "d7" and "D2-alias-capture" in listed and subquery_capture_explains(stmt, op, s0, s1):
         return "known:D2-alias-capture", det
     if "D2-keyword-alias" in listed and subquery_keyword_explains(stmt, op, s0, s1):
         return "known:D2-keyword-alias", det
-    if cls == "d7" and "D7" in listed and not model_applies and owner_only_difference(s0, s1):
-        # a select-item subquery keeps the statement out of the model (`_get_column_from_subquery`): D7 is then recognised by its
-        # model-free signature — same tables, same (column, target) pairs, only the OWNER of some source columns differs
+    if cls == "d7" and "D7" in listed and owner_only_difference(s0, s1):
+        # the model does not describe this case — a select-item subquery (`_get_column_from_subquery`), or a dialect that reads
+        # the ORIGINAL text differently from the typed AST: D7 is then recognised by its model-free signature — same tables,
+        # same (column, target) pairs, only the OWNER of some source columns differs
         return "known:D7", det
     return "fail", det
 
